@@ -127,6 +127,11 @@ func mkAval(v reflect.Value, ti int, label string, coreMember bool) aval {
 	a.Canon = gen.Canon(v)
 	a.ProfTyped = gen.ProfileOf(v)
 	a.ProfIface = gen.ProfileOf(asIface(v))
+	if v.Kind() == reflect.Int64 && v.Int() < 0 {
+		// int64 is always written with the long tag, whatever its magnitude: in an interface{} destination an
+		// unsigned LongType cannot represent it (gen.ProfileOf assumes the int32 range travels as an integer)
+		a.ProfIface.LongNeg = true
+	}
 	a.HasStruct = hasStruct(v)
 	a.ListLike = listLike(v)
 	return a
